@@ -66,6 +66,9 @@ Record st := mkSt {
   inbuf : Z;            (* len(in_buffer._buffer) *)
   in_sofar : Z;         (* in_window_sofar *)
   in_thresh : Z;        (* in_window_threshold *)
+  blocking : bool;      (* Channel.timeout is None (True) or 0.0 (False) *)
+  nepoch : Z;           (* number of out_buffer_cv.notify_all() calls so far: a waiter that started
+                           waiting at epoch e has been notified iff e < nepoch *)
   (* ghost fields, written only by the peer-CLOSE critical section, never read by the
      operational part: *)
   gotc : bool;          (* a peer CLOSE was handled while the channel was active and mapped *)
@@ -73,33 +76,27 @@ Record st := mkSt {
 }.
 
 Definition set_eof_sent (s : st) : st :=
-  mkSt (active s) (closed s) true (eof_recv s) (in_map s) (pipe_closed s) (out_win s) (max_pkt s)
-       (inbuf s) (in_sofar s) (in_thresh s) (gotc s) (gotr s).
-(* _set_closed: closed = True; in_buffer.close() *)
+  mkSt (active s) (closed s) (true) (eof_recv s) (in_map s) (pipe_closed s) (out_win s) (max_pkt s) (inbuf s) (in_sofar s) (in_thresh s) (blocking s) (nepoch s) (gotc s) (gotr s).
+(* _set_closed: closed = True; in_buffer.close(); out_buffer_cv.notify_all() *)
 Definition set_closed (s : st) : st :=
-  mkSt (active s) true (eof_sent s) (eof_recv s) (in_map s) true (out_win s) (max_pkt s)
-       (inbuf s) (in_sofar s) (in_thresh s) (gotc s) (gotr s).
+  mkSt (active s) (true) (eof_sent s) (eof_recv s) (in_map s) (true) (out_win s) (max_pkt s) (inbuf s) (in_sofar s) (in_thresh s) (blocking s) (nepoch s + 1) (gotc s) (gotr s).
 Definition set_eof_recv (s : st) : st :=
-  mkSt (active s) (closed s) (eof_sent s) true (in_map s) (pipe_closed s) (out_win s) (max_pkt s)
-       (inbuf s) (in_sofar s) (in_thresh s) (gotc s) (gotr s).
+  mkSt (active s) (closed s) (eof_sent s) (true) (in_map s) (pipe_closed s) (out_win s) (max_pkt s) (inbuf s) (in_sofar s) (in_thresh s) (blocking s) (nepoch s) (gotc s) (gotr s).
 Definition set_pipe_closed (s : st) : st :=
-  mkSt (active s) (closed s) (eof_sent s) (eof_recv s) (in_map s) true (out_win s) (max_pkt s)
-       (inbuf s) (in_sofar s) (in_thresh s) (gotc s) (gotr s).
+  mkSt (active s) (closed s) (eof_sent s) (eof_recv s) (in_map s) (true) (out_win s) (max_pkt s) (inbuf s) (in_sofar s) (in_thresh s) (blocking s) (nepoch s) (gotc s) (gotr s).
 Definition unmap (s : st) : st :=
-  mkSt (active s) (closed s) (eof_sent s) (eof_recv s) false (pipe_closed s) (out_win s) (max_pkt s)
-       (inbuf s) (in_sofar s) (in_thresh s) (gotc s) (gotr s).
+  mkSt (active s) (closed s) (eof_sent s) (eof_recv s) (false) (pipe_closed s) (out_win s) (max_pkt s) (inbuf s) (in_sofar s) (in_thresh s) (blocking s) (nepoch s) (gotc s) (gotr s).
 Definition set_out_win (s : st) (w : Z) : st :=
-  mkSt (active s) (closed s) (eof_sent s) (eof_recv s) (in_map s) (pipe_closed s) w (max_pkt s)
-       (inbuf s) (in_sofar s) (in_thresh s) (gotc s) (gotr s).
+  mkSt (active s) (closed s) (eof_sent s) (eof_recv s) (in_map s) (pipe_closed s) (w) (max_pkt s) (inbuf s) (in_sofar s) (in_thresh s) (blocking s) (nepoch s) (gotc s) (gotr s).
+(* _window_adjust: out_window_size += n; out_buffer_cv.notify_all() *)
+Definition adjust_win (s : st) (n : Z) : st :=
+  mkSt (active s) (closed s) (eof_sent s) (eof_recv s) (in_map s) (pipe_closed s) (out_win s + n) (max_pkt s) (inbuf s) (in_sofar s) (in_thresh s) (blocking s) (nepoch s + 1) (gotc s) (gotr s).
 Definition set_inbuf (s : st) (n : Z) : st :=
-  mkSt (active s) (closed s) (eof_sent s) (eof_recv s) (in_map s) (pipe_closed s) (out_win s) (max_pkt s)
-       n (in_sofar s) (in_thresh s) (gotc s) (gotr s).
+  mkSt (active s) (closed s) (eof_sent s) (eof_recv s) (in_map s) (pipe_closed s) (out_win s) (max_pkt s) (n) (in_sofar s) (in_thresh s) (blocking s) (nepoch s) (gotc s) (gotr s).
 Definition set_in_sofar (s : st) (n : Z) : st :=
-  mkSt (active s) (closed s) (eof_sent s) (eof_recv s) (in_map s) (pipe_closed s) (out_win s) (max_pkt s)
-       (inbuf s) n (in_thresh s) (gotc s) (gotr s).
+  mkSt (active s) (closed s) (eof_sent s) (eof_recv s) (in_map s) (pipe_closed s) (out_win s) (max_pkt s) (inbuf s) (n) (in_thresh s) (blocking s) (nepoch s) (gotc s) (gotr s).
 Definition set_ghost (s : st) (c r : bool) : st :=
-  mkSt (active s) (closed s) (eof_sent s) (eof_recv s) (in_map s) (pipe_closed s) (out_win s) (max_pkt s)
-       (inbuf s) (in_sofar s) (in_thresh s) c r.
+  mkSt (active s) (closed s) (eof_sent s) (eof_recv s) (in_map s) (pipe_closed s) (out_win s) (max_pkt s) (inbuf s) (in_sofar s) (in_thresh s) (blocking s) (nepoch s) (c) (r).
 
 (* ---- operations -------------------------------------------------------------- *)
 Inductive op :=
@@ -114,7 +111,10 @@ Inductive op :=
   (* transport shutdown: chan._unlink() *)
   | OUnlink
   (* continuations: the critical section that follows an unlocked pre-step *)
-  | KShutW | KRecv (out : Z) | KEof | KCloseH | KFail | KWa (n : Z) | KUnlink.
+  | KShutW | KRecv (out : Z) | KEof | KCloseH | KFail | KWa (n : Z) | KUnlink
+  (* a writer inside out_buffer_cv.wait() in _wait_for_send_window: [ext] = send_stderr,
+     [n] = requested size, [e] = notify epoch at which the wait started *)
+  | KBlocked (ext : bool) (n : Z) (e : Z).
 
 (* result of one step that is not an emission *)
 Record out := mkO {
@@ -136,17 +136,45 @@ Definition close_internal (s : st) : st * list msg :=
   if negb (active s) || closed s then (s, [])
   else let '(s1, m1) := send_eof s in (set_closed s1, m1 ++ [MClose]).
 
-(* _send (lock held part), for both send and send_stderr; timeout = 0.0 *)
-Definition send_cs (mk : Z -> msg) (n : Z) (s : st) : out :=
+(* _wait_for_send_window, last part ("we have some window to squeeze into", after its
+   closed/eof re-check) and the rest of _send *)
+Definition mk_data (ext : bool) (n : Z) : msg := if ext then MExt n else MData n.
+Definition reserve (ext : bool) (n : Z) (s : st) : out :=
+  let size1 := if out_win s <? n then out_win s else n in
+  let size := if max_pkt s - 64 <? size1 then max_pkt s - 64 else size1 in
+  let s' := set_out_win s (out_win s - size) in
+  if size =? 0 then mkO s' [] [] (r_ok 0)
+  else mkO s' [mk_data ext size] [] (r_ok size).
+
+(* _send (lock held part), for both send and send_stderr.  With timeout 0.0 a zero window
+   raises socket.timeout; with timeout None the writer enters the wait loop: its first
+   iteration re-tests closed/eof_sent (false here) and calls out_buffer_cv.wait(), which
+   releases the lock -- the thread continues as KBlocked *)
+Definition send_cs (ext : bool) (n : Z) (s : st) : out :=
   if closed s then mkO s [] [] (r_exn SocketErr)
   else if closed s || eof_sent s then mkO s [] [] (r_ok 0)
-  else if out_win s =? 0 then mkO s [] [] (r_exn SocketTimeout)
-  else
-    let size1 := if out_win s <? n then out_win s else n in
-    let size := if max_pkt s - 64 <? size1 then max_pkt s - 64 else size1 in
-    let s' := set_out_win s (out_win s - size) in
-    if size =? 0 then mkO s' [] [] (r_ok 0)
-    else mkO s' [mk size] [] (r_ok size).
+  else if out_win s =? 0 then
+    if blocking s then mkO s [] [KBlocked ext n (nepoch s)] []
+    else mkO s [] [] (r_exn SocketTimeout)
+  else if closed s || eof_sent s then mkO s [] [] (r_ok 0)
+  else reserve ext n s.
+
+(* a notified waiter has re-acquired the lock inside wait():
+     while self.out_window_size == 0:
+         if self.closed or self.eof_sent: return 0
+         self.out_buffer_cv.wait(timeout)
+     if self.closed or self.eof_sent: return 0        <- the re-check after the loop
+     ... reserve ...                                                                  *)
+Definition wake_cs (ext : bool) (n : Z) (s : st) : out :=
+  if out_win s =? 0 then
+    if closed s || eof_sent s then mkO s [] [] (r_ok 0)
+    else mkO s [] [KBlocked ext n (nepoch s)] []
+  else if closed s || eof_sent s then mkO s [] [] (r_ok 0)
+  else reserve ext n s.
+
+(* a thread inside wait() can only continue after a notify_all() issued after it started waiting *)
+Definition op_enabled (o : op) (s : st) : bool :=
+  match o with KBlocked _ _ e => e <? nepoch s | _ => true end.
 
 (* _check_add_window (whole function is one critical section) *)
 Definition check_add_window (n : Z) (s : st) : st * Z :=
@@ -169,8 +197,9 @@ Definition exec (o : op) (s : st) : out :=
       else if how =? 2 then mkO (set_eof_recv s) [] [KShutW] []
       else mkO s [] [] (r_ok 0)
   | KShutW => let '(s', ms) := send_eof s in mkO s' ms [] (r_ok 0)
-  | OSend n => send_cs MData n s
-  | OSendErr n => send_cs MExt n s
+  | OSend n => send_cs false n s
+  | OSendErr n => send_cs true n s
+  | KBlocked ext n _ => wake_cs ext n s
   | ORecv n =>
       (* in_buffer.read(n, 0.0) *)
       if inbuf s =? 0 then
@@ -191,7 +220,7 @@ Definition exec (o : op) (s : st) : out :=
   | OPeerFail => if in_map s then mkO s [] [KFail] [] else mkO s [] [] (r_ok 0)
   | KFail => let '(s', ms) := close_internal s in mkO s' ms [] (r_ok 0)
   | OPeerWa n => if in_map s then mkO s [] [KWa n] [] else mkO s [] [] (r_ok 0)
-  | KWa n => mkO (set_out_win s (out_win s + n)) [] [] (r_ok 0)
+  | KWa n => mkO (adjust_win s n) [] [] (r_ok 0)
   | OPeerData n =>
       (* _feed takes no channel lock: lookup and feed are one step *)
       if in_map s then mkO (set_inbuf s (inbuf s + n)) [] [] (r_ok 0) else mkO s [] [] (r_ok 0)
@@ -222,7 +251,8 @@ Fixpoint upd {A} (i : nat) (x : A) (l : list A) : list A :=
 
 Definition pending (c : cfg) : list msg := concat (map pend (thr c)).
 
-(* one scheduler step of thread [tid]; None = the thread has nothing left to do *)
+(* one scheduler step of thread [tid]; None = the thread has nothing left to do or is blocked
+   in out_buffer_cv.wait() and has not been notified *)
 Definition cstep (c : cfg) (tid : nat) : option cfg :=
   match nth_error (thr c) tid with
   | None => None
@@ -234,6 +264,7 @@ Definition cstep (c : cfg) (tid : nat) : option cfg :=
           match ops t with
           | [] => None
           | o :: r =>
+              if negb (op_enabled o (sh c)) then None else
               let x := exec o (sh c) in
               Some (mkC (o_st x)
                         (upd tid (mkT (o_msgs x) (o_k x ++ r) (res t ++ o_res x)) (thr c))
@@ -272,8 +303,8 @@ Definition enc_msg (m : msg) : list Z :=
   end.
 Definition b2z (b : bool) : Z := if b then 1 else 0.
 
-Definition mk_init (act : bool) (w p buf thresh : Z) : st :=
-  mkSt act false false false true false w p buf 0 thresh false false.
+Definition mk_init (act blk : bool) (w p buf thresh : Z) : st :=
+  mkSt act false false false true false w p buf 0 thresh blk 0 false false.
 
 Definition enc_cfg (c : cfg) : list Z :=
   concat (map enc_msg (wire c)) ++ [-1]
@@ -282,10 +313,10 @@ Definition enc_cfg (c : cfg) : list Z :=
       out_win (sh c); inbuf (sh c); in_sofar (sh c);
       Z.of_nat (length (pending c)); Z.of_nat (length (concat (map ops (thr c))))].
 
-(* input: ((active, out_window, max_packet, in-buffer bytes, in threshold), programs, schedule) *)
-Definition run_case (x : (bool * Z * Z * Z * Z) * list (list op) * list Z) : list Z :=
-  let '((act, w, p, buf, th), progs, sched) := x in
-  match crun (init_cfg (mk_init act w p buf th) progs)
+(* input: ((active, blocking, out_window, max_packet, in-buffer bytes, in threshold), programs, schedule) *)
+Definition run_case (x : (bool * bool * Z * Z * Z * Z) * list (list op) * list Z) : list Z :=
+  let '((act, blk, w, p, buf, th), progs, sched) := x in
+  match crun (init_cfg (mk_init act blk w p buf th) progs)
              (map (fun t => Z.to_nat (Z.min (Z.max t 0) 64)) sched) with
   | None => [-99]
   | Some c => enc_cfg c
@@ -343,17 +374,17 @@ Definition rle_list (l : list Z) : list Z :=
 
 (* input: (initial state, programs, leaf budget); output: run-length encoded outcome index of
    every complete schedule in depth-first order, -9, the distinct outcomes each followed by -8 *)
-Definition run_set (x : (bool * Z * Z * Z * Z) * list (list op) * Z) : list Z :=
-  let '((act, w, p, buf, th), progs, cap) := x in
-  let r := enum 200 (init_cfg (mk_init act w p buf th) progs)
+Definition run_set (x : (bool * bool * Z * Z * Z * Z) * list (list op) * Z) : list Z :=
+  let '((act, blk, w, p, buf, th), progs, cap) := x in
+  let r := enum 200 (init_cfg (mk_init act blk w p buf th) progs)
                 (Z.to_nat (Z.min (Z.max cap 0) 20000), []) in
   let '(seen, idx) := dedup (rev (snd r)) [] [] in
   rle_list idx ++ [-9] ++ concat (map (fun o => o ++ [-8]) seen).
 
 (* one entry point for the correspondence run: a whole schedule tree or one schedule *)
 Inductive cinput :=
-  | CSet (x : (bool * Z * Z * Z * Z) * list (list op) * Z)
-  | CWalk (x : (bool * Z * Z * Z * Z) * list (list op) * list Z).
+  | CSet (x : (bool * bool * Z * Z * Z * Z) * list (list op) * Z)
+  | CWalk (x : (bool * bool * Z * Z * Z * Z) * list (list op) * list Z).
 Definition run_any (i : cinput) : list Z :=
   match i with CSet x => run_set x | CWalk x => run_case x end.
 
@@ -361,4 +392,6 @@ Definition run_any (i : cinput) : list Z :=
    send reserves under the lock, close runs completely, then send emits *)
 Definition witness_progs : list (list op) := [[OSend 5]; [OClose]].
 Definition witness_sched : list nat := [0; 1; 1; 1; 0]%nat.
-Definition witness_init : st := mk_init true 100 1000 0 10.
+Definition witness_init : st := mk_init true false 100 1000 0 10.
+(* a blocked writer: zero window, timeout None *)
+Definition blocked_init : st := mk_init true true 0 1000 0 10.
